@@ -73,6 +73,17 @@ def gen_cases(ctx):
                 "detectors": [{"kind": "field", "box": [[1, 5], [1, 4], [3, 6]], "name": "full"},
                               {"kind": "field", "box": [[1, 5], [1, 4], [3, 6]], "name": "gated", "switch": dsw}]}
         cases.append({"kind": "run", "spec": spec, "ssw": ssw, "dsw": dsw})
+    # several detectors in one scene, a never-active one listed before the others (each detector must follow its OWN schedule)
+    for order in ctx.pick([0], [0, 1, 2]):
+        dets = [("off0", {"off": True}), ("d1", {"fixed": [1, 2, 5]}), ("d2", {"start_time": 1, "interval": 2}), ("d3", {"end_time": 4.5}), ("off1", {"fixed": []})]
+        dets = dets[order:] + dets[:order]
+        spec = {"shape": [6, 6, 8], "spacing": 5e-8, "steps": 7, "thickness": 2,
+                "bt": {"min_x": "periodic", "max_x": "periodic", "min_y": "pec", "max_y": "pec", "min_z": "pml", "max_z": "pml"},
+                "sources": [{"kind": "dipole", "cell": [3, 3, 4], "pol": 2}, {"kind": "dipole", "cell": [2, 2, 5], "pol": 0}],
+                "detectors": [{"kind": "field", "box": [[1, 5], [1, 4], [3, 6]], "name": nm, "switch": sw} for nm, sw in dets[:2]]
+                             + [{"kind": "field", "box": [[1, 5], [1, 4], [3, 6]], "name": "full"}]
+                             + [{"kind": "field", "box": [[1, 5], [1, 4], [3, 6]], "name": nm, "switch": sw} for nm, sw in dets[2:]]}
+        cases.append({"kind": "multi", "spec": spec, "sws": dict(dets)})
     # gating through update_E / update_H for every kind of schedule at once: one scene, one dipole per schedule (distinct cells),
     # zero fields, so whatever appears at a source's cell after update_E / update_H is that source's injection
     T = 10
@@ -90,12 +101,19 @@ def gen_cases(ctx):
     if len(cells) == len(srcs):
         spec = {"shape": [6, 6, 6], "spacing": 5e-8, "steps": T, "bt": {f: "periodic" for f in ("min_x", "max_x", "min_y", "max_y", "min_z", "max_z")}, "sources": srcs}
         cases.append({"kind": "gate", "spec": spec, "sws": pats})
+    # switches replaced on the PLACED objects followed by apply_params (what calculate_sparam does to silence the non-input ports)
+    init = [None, {"end_time": 5.5}, {"interval": 2}, {"interval": 3}, None]
+    edits = {"s0": {"off": True}, "s1": {"start_time": 4}, "s2": {"fixed": [1, 4, 8]}, "s4": {"off": True}}
+    srcs = [{"kind": "dipole", "cell": [1 + n, 2, 3], "pol": n % 3, "mag": bool(n == 2), "switch": sw, "name": f"s{n}"} for n, sw in enumerate(init[:4])]
+    srcs.append({"kind": "plane", "axis": 2, "pos": 1, "dir": "+", "pol": [1.0, 0.5, 0.0], "switch": None, "name": "s4"})
+    spec = {"shape": [6, 6, 6], "spacing": 5e-8, "steps": T, "bt": {f: "periodic" for f in ("min_x", "max_x", "min_y", "max_y", "min_z", "max_z")}, "sources": srcs}
+    cases.append({"kind": "edit", "spec": spec, "edits": edits, "final": [edits.get(f"s{n}", init[n]) or {} for n in range(5)]})
     return cases
 
 
 def run_cases(ctx, cases):
     a = [c for c in cases if c["kind"] == "switch"]
-    b = [c for c in cases if c["kind"] in ("run", "gate")]
+    b = [c for c in cases if c["kind"] in ("run", "gate", "multi", "edit")]
     from concurrent.futures import ThreadPoolExecutor
     with ThreadPoolExecutor(2) as ex:      # the pure-Python switch cases and the scene runs side by side
         fa = ex.submit(lambda: core.run_impl(IMPL, {"cases": a})["outs"] if a else [])
@@ -131,6 +149,21 @@ def coq_expr(case, out):
         for t, r in enumerate(out["ison"]):
             c, b = (r["error"], False) if isinstance(r, dict) else (0, r)
             parts.append(f"chk_b (is_on_at_time_step QcOF {sw} (fofZ (K := QcF) {zlit(t)} * {qlit(dt)})%Qc) {zlit(c)} {blit(b)}")
+        return "(" + " && ".join(parts) + ")%bool"
+    if case["kind"] == "edit":
+        T = out["T"]
+        parts = []
+        for sw, inj in zip(case["final"], out["inj"]):
+            parts.append(f"match calculate_on_list QcOF {sw_coq(sw)} {zlit(T)} (q 1 1) with SOk on => forallb (fun p => implb (snd p) (fst p)) (combine on {lst(inj, blit)}) | _ => false end")
+        return "(" + " && ".join(parts) + ")%bool"
+    if case["kind"] == "multi":
+        T = out["T"]
+        parts = []
+        for nm, d in out["dets"].items():
+            sq = sw_coq(case["sws"][nm])
+            parts.append(f"chk_on (calculate_on_list QcOF {sq} {zlit(T)} (q 1 1)) 0 {lst(d['on'], blit)}")
+            if d["rows"] and any(d["on"]):
+                parts.append(f"match calculate_on_list QcOF {sq} {zlit(T)} (q 1 1) with SOk on => chk_rows (det_run on (fun t => t) (-1) {zlit(T)}) {lst(d['match'], lambda l: lst(l, zlit))} | _ => false end")
         return "(" + " && ".join(parts) + ")%bool"
     if case["kind"] == "gate":
         T = out["T"]
@@ -234,6 +267,32 @@ def predicate(case, out):
         if seen < 10:
             return ("gate-vacuous", "sources almost never inject: vacuous gating test")
         return None
+    if case["kind"] == "edit":
+        T = out["T"]
+        for nm, sw, inj in zip(out["names"], case["final"], out["inj"]):
+            exp = expected_on(sw, T, 1.0)
+            bad = [t for t in range(T) if inj[t] and not exp[t]]
+            if bad:
+                return (f"edited-switch-{nm}-" + ",".join(sorted(sw)), f"source {nm} carries the schedule {sw} after its switch was replaced and apply_params ran, "
+                        f"but injects at inactive steps {bad} (active steps {[t for t in range(T) if exp[t]]})")
+            if any(exp) and not any(inj[t] for t in range(T) if exp[t]):
+                return (f"edited-switch-vacuous-{nm}", f"source {nm} never injects at an active step")
+        return None
+    if case["kind"] == "multi":
+        T = out["T"]
+        for nm, d in out["dets"].items():
+            on = expected_on(case["sws"][nm], T, 1.0)
+            times = [t for t in range(T) if on[t]]
+            tag = f"multi-{nm}-after-{out['order'][:out['order'].index(nm)]}"
+            if d["on"] != on:
+                return (tag, f"detector {nm}: on array {d['on']} differs from the window rule {on}")
+            if not times:
+                if d["rows"] > 1 or not all(d["zero_rows"]):
+                    return (tag, f"never-active detector {nm} recorded something ({d['rows']} rows)")
+                continue
+            if d["rows"] != len(times) or any(t not in m for t, m in zip(times, d["match"])):
+                return (tag, f"detector {nm} (listed after {out['order'][:out['order'].index(nm)]}): rows equal full rows {d['match']}, its own schedule is on at {times}")
+        return None
     T = out["T"]
     tag = "run-" + core.case_hash({"s": case["ssw"], "d": case["dsw"]})[:10]
     s_on = expected_on(case["ssw"], T, 1.0); d_on = expected_on(case["dsw"], T, 1.0)
@@ -253,14 +312,14 @@ def predicate(case, out):
 
 
 def nontrivial(case, out):
-    if case["kind"] == "gate":
+    if case["kind"] in ("gate", "multi", "edit"):
         return "crash" not in out
     on = out.get("on") if case["kind"] == "switch" else out.get("det_on")
     return isinstance(on, list) and any(on) and not all(on)
 
 
 def classify(case, out):
-    if case["kind"] in ("run", "gate"):
+    if case["kind"] in ("run", "gate", "multi", "edit"):
         return case["kind"]
     on = out.get("on")
     if isinstance(on, dict):
